@@ -250,3 +250,55 @@ example : clientIDFromServerName exHost (120 :: exHost) false = .ok [] := by dec
 example : clientIDFromPath (slash :: dnsQuery ++ slash :: [97,95,98]) = .error .badLabel := by decide
 
 end AGH.C16
+
+namespace AGH.C16
+open AGH AGH.Bytes
+
+theorem Cache.get_set (c : Cache) (r : Nat) (id : Bytes) : (c.set r id).get r = id := by
+  simp [Cache.set, Cache.get]
+
+theorem Cache.get_del (c : Cache) (r : Nat) : (c.del r).get r = [] := by
+  unfold Cache.get Cache.del
+  cases h : List.find? (fun x => x.1 == r) (List.filter (fun x => x.1 != r) c) with
+  | none => rfl
+  | some p =>
+    have h1 := List.find?_some h
+    have h2 := List.mem_of_find?_eq_some h
+    simp at h2
+    simp at h1
+    exact absurd h1 h2.2
+
+/-- A request that passed `HandleBefore` is attributed to exactly the ClientID
+extracted from THAT request — whatever the cache held before (any history of
+earlier requests, any reuse of request numbers after the proxy was re-created).
+In particular a plain or DNSCrypt request is attributed to nobody. -/
+theorem C16_attribution_is_own (c : Cache) (r : Nat) (ctx : Ctx) (id : Bytes)
+    (h : (handleBefore c r ctx).2 = .ok id) :
+    attributed (handleBefore c r ctx).1 r = id ∧ clientIDFromCtx ctx = .ok id := by
+  unfold handleBefore at h ⊢
+  cases hc : clientIDFromCtx ctx with
+  | error e => simp [hc] at h
+  | ok id' =>
+    simp only [hc] at h ⊢
+    by_cases hid : id' = []
+    · simp [hid] at h ⊢
+      subst h
+      exact ⟨Cache.get_del c r, rfl⟩
+    · simp [hid] at h ⊢
+      subst h
+      exact ⟨Cache.get_set c r id', rfl⟩
+
+/-- …over every history of requests sharing one cache. -/
+theorem C16_attribution_history (hist : List (Nat × Ctx)) (r : Nat) (ctx : Ctx) (id : Bytes) :
+    let c := hist.foldl (fun c p => (handleBefore c p.1 p.2).1) ([] : Cache)
+    (handleBefore c r ctx).2 = .ok id → attributed (handleBefore c r ctx).1 r = id :=
+  fun h => (C16_attribution_is_own _ r ctx id h).1
+
+theorem C16_plain_attributed_to_nobody (c : Cache) (r : Nat) (ctx : Ctx)
+    (hp : ctx.proto = .udp ∨ ctx.proto = .tcp ∨ ctx.proto = .dnscrypt) :
+    attributed (handleBefore c r ctx).1 r = [] := by
+  have h := C16_plain_none ctx hp
+  have : (handleBefore c r ctx).2 = .ok [] := by simp [handleBefore, h]
+  exact (C16_attribution_is_own c r ctx [] this).1
+
+end AGH.C16
